@@ -366,7 +366,20 @@ type vC11CR struct {
 
 func vC11Addr(kind byte, ch uint64) []byte { return []byte{kind, byte(ch)} }
 
+// vC11ResultHook (used by the C13 reader-result sweep) may rewrite an answer before it is decoded into the caller's
+// value; an answer that then no longer fits the caller's type is what a real contract reader reports as an error.
+var vC11ResultHook func(js string) string
+
 func vC11JSON(ret any, js string) error {
+	if vC11ResultHook != nil {
+		js2 := vC11ResultHook(js)
+		if js2 != js {
+			if err := json.Unmarshal([]byte(js2), ret); err != nil {
+				return vErr
+			}
+			return nil
+		}
+	}
 	if err := json.Unmarshal([]byte(js), ret); err != nil {
 		panic(fmt.Sprintf("verif fake reader: cannot fill %T from %s: %v", ret, js, err))
 	}
